@@ -19,7 +19,8 @@ SOLVERS = ["euler", "heun", "scipy", "diffrax", "other"]
 DELAYS = ["none", "discrete", "spread", "past"]
 ENTRIES = ["run", "func", "jac"]
 GUARDS = ["guard_path_not_attr", "guard_node_value_not_circuit"]
-MIXED = ["mix_ds", "mix_sd"]
+MIXED = ["mix_ds", "mix_sd", "pop_ds", "pop_sd"]
+POP_MIXED = ["pop_ds", "pop_sd"]
 
 # ---------------------------------------------------------------------------------------------- pool of valid models
 def pool():
@@ -36,7 +37,21 @@ def pool():
              nodes={"a": dict(ops=["o1"], values={}), "b": dict(ops=["o1"], values={"o1/g": 2.0})},
              edges=[["a/o1/v", "b/o1/s_in", {"weight": 0.5, "delay": 0.25}], ["b/o1/v", "a/o1/s_in", {"weight": 0.5}]],
              outputs={"va": "a/o1/v"}, inputs=["b/o1/i_ext"], update={"a/o1/g": 1.5}, node_values={"b/o1/g": 0.5})
-    return [A, B]
+    # two operators of one node in the SAME layer of the operator graph (no dependency between them) that share the
+    # parameter names k and c: a name deleted from one of them is still declared by its sibling
+    C = dict(name="C",
+             ops={"oc": dict(equations=["x' = -k*x + c + x_in"], variables={"x": "output(1.0)", "x_in": "input(0.0)", "k": 2.0, "c": 0.5}),
+                  "od": dict(equations=["z' = -k*z + c*w"], variables={"z": "output(0.5)", "w": "input(0.0)", "k": 3.0, "c": 0.25})},
+             nodes={"q1": dict(ops=["oc", "od"], values={}), "q2": dict(ops=["oc", "od"], values={"od/k": 1.5})},
+             edges=[["q1/oc/x", "q2/od/w", {"weight": 0.5}], ["q2/od/z", "q1/oc/x_in", {"weight": 0.25}]],
+             outputs={"x1": "q1/oc/x", "z2": "q2/od/z"}, inputs=["q1/od/w"], update={"q2/oc/k": 1.0}, node_values={"q1/od/c": 0.75})
+    # the same with the operators declared in the other order in every node (which of the two is parsed later decides
+    # whether a deleted name could be borrowed from the sibling)
+    Cr = copy.deepcopy(C); Cr["name"] = "Cr"
+    Cr["ops"] = {k: Cr["ops"][k] for k in ("od", "oc")}
+    for d in Cr["nodes"].values():
+        d["ops"] = ["od", "oc"]
+    return [A, B, C, Cr]
 
 def hier_pool():
     """hierarchical circuits of depth 1 and 2 over one leaf circuit (nodes a, b with operator o1)"""
@@ -219,11 +234,26 @@ def _impl_config(case):
     res = _impl_config0(case)
     return res
 
+def _build_population(dl):
+    """PopulationTemplate of two units that projects onto itself through two delayed matrix Connectivity objects
+    (NetworkGraph._add_matrix_delay): one with a plain delay (ring buffer under a fixed step), one with delay + spread
+    (gamma-kernel chain); pop_ds: the plain-delay connection is listed (processed) first, pop_sd: the other order."""
+    import numpy as np
+    from pyrates import CircuitTemplate, NodeTemplate, OperatorTemplate
+    from pyrates.frontend.template.population import PopulationTemplate, Connectivity
+    op = OperatorTemplate(name="o1", equations=["v' = -v + s_in"], variables={"v": "output(0.5)", "s_in": "input(0.0)"})
+    node = NodeTemplate(name="n_t", operators=[op])
+    pop = PopulationTemplate(name="p", node=node, n=2)
+    plain = Connectivity(source="p/o1/v", target="p/o1/s_in", weights=np.array([[0.0, 0.5], [0.5, 0.0]]), delays=0.25)
+    spread = Connectivity(source="p/o1/v", target="p/o1/s_in", weights=np.array([[0.25, 0.0], [0.0, 0.25]]), delays=0.25, spread=0.125)
+    conns = [plain, spread] if dl == "pop_ds" else [spread, plain]
+    return CircuitTemplate(name="c", populations={"p": pop}, connections=conns)
+
 _FCOUNT = [0]
 def _impl_config0(case):
     import warnings
     import numpy as np
-    m = matrix_model(case["dl"])
+    m = matrix_model(case["dl"]) if case["dl"] not in POP_MIXED else dict(outputs={"v": "p/o1/v"})
     rec, saved = [], []
     kw = dict(backend=case["be"], vectorize=case["vec"], verbose=False, float_precision="float64")
     if not case["inplace"]:
@@ -236,7 +266,7 @@ def _impl_config0(case):
     with warnings.catch_warnings(record=True):
         warnings.simplefilter("always")
         try:
-            c = _build(m)
+            c = _build(m) if case["dl"] not in POP_MIXED else _build_population(case["dl"])
             if case["en"] == "run":
                 saved = _record_solve(case["be"], rec)
                 r = c.run(simulation_time=1.0, step_size=0.125, solver=case["so"], outputs=dict(m["outputs"]), clear=True, **kw)
@@ -442,7 +472,8 @@ def mutants(m, rng, tier):
         mu["vec"] = None
     res = []
     for mu in out:
-        for vec in ([False, True] if tier == "thorough" else [rng.random() < 0.5]):
+        both = tier == "thorough" or (mu["kind"] == "del_var" and m["name"] in ("C", "Cr"))   # sibling-declared names: both
+        for vec in ([False, True] if both else [rng.random() < 0.5]):
             res.append(dict(mu, vec=vec))
     return res
 
@@ -558,7 +589,8 @@ def probe_term(case, res):
         dl = {"none": "DNone", "discrete": "DDiscrete", "spread": "DSpread", "past": "DPast"}.get(case["dl"])
         en = {"run": "ERun", "func": "EFunc", "jac": "EJac"}[case["en"]]
         if case["dl"] in MIXED:
-            return f"PMixed {be} {so} {cbool(case['vec'])} {cbool(case['dl'] == 'mix_ds')} {en}"
+            ctor = "PPopMixed" if case["dl"] in POP_MIXED else "PMixed"
+            return f"{ctor} {be} {so} {cbool(case['vec'])} {cbool(case['dl'].endswith('_ds'))} {en}"
         return f"PConfig (mkc {be} {so} {cbool(case['vec'])} {dl} {cbool(case['sparse'])} {cbool(case['inplace'])} {en})"
     if t == "vname":
         return f"PVname {cstr(case['v'])}"
